@@ -2,7 +2,7 @@
 # tools/verify_seed.sh <worktree>   confirm a sub-agent's seeded change: suite green with it, demo red with it, demo green without it
 W=$1
 cd $W || exit 2
-export PATH=$PATH:/root/miniconda/bin CARGO_NET_OFFLINE=true
+export PATH=$PATH:/root/miniconda/bin CARGO_NET_OFFLINE=true TMPDIR=/tmp/pin
 git diff -- src > /tmp/verify_seed.diff
 if ! diff -q /tmp/verify_seed.diff patch.diff >/dev/null; then echo "NOTE: patch.diff differs from the working tree diff; using the working tree diff"; cp /tmp/verify_seed.diff patch.diff; fi
 echo "changed: $(git diff --stat -- src | tail -1)"
